@@ -1,7 +1,474 @@
-(* Properties/C12.v — a KDE is a proper probability distribution consistent with its kernel formula. *)
-From MM Require Import Base.Num Model.Kde Proofs.Kde.
+(* Properties/C12.v — a KDE is a proper probability distribution consistent with its kernel formula.
+   ONLY statements.
+   Part A (over Q, closed under the global context): the executable model Model/Kde.v of
+     stats/kde.go against the plain-mathematics definitions of Spec/Kde.v (weighted average
+     `wavg`, weighted empirical distribution function `wecdf`, two-sided image sums `fold_pdf`,
+     `fold_cdf`, `rule10`).  kde_ok / kde_ps / kde_f / kde_F / bounds_ok / pdf_spec / cdf_spec are
+     defined in Proofs/Kde.v:  kde_f k = wavg (epan_pdf h) (pairs of the sample),
+     kde_F k = wavg (epan_cdf h) (pairs of the sample).
+   Part B (over the reals, stdlib real axioms): derivative pair, integrals and total mass for
+     the real-number definitions of RealSpec/KdeR.v (abstract kernel pair K' = k, Epanechnikov
+     and Gaussian instances, reflection at one boundary, image sums).
+   Part C (bridge): the rational spec of part A is the restriction of the real spec of part B
+     to rational points (Proofs/KdeQR.v). *)
+From Coq Require Import Reals.
+From Coquelicot Require Import Coquelicot.
+From MM Require Import Base.Num Model.Sample Model.Quantile Model.Kde Spec.Kde Proofs.Kde Proofs.KdeBw Proofs.KdeGroups.
+From MM Require RealSpec.KdeR Proofs.KdeR RealSpec.Normal Proofs.KdeQR Proofs.KdeCap Spec.Quantile Proofs.Quantile.
+From Coq Require Import Qreals Psatz.
+From MM Require Check.C12 Proofs.CheckC12.
 Local Open Scope Q_scope.
 
-Theorem C12_epan_pdf_nonneg : forall h x, 0 < h -> 0 <= epan_pdf h x.
-Proof. exact epan_pdf_nonneg. Qed.
-Print Assumptions C12_epan_pdf_nonneg.
+(* ====================================================================== *)
+(* A1. the Epanechnikov kernel                                              *)
+(* ====================================================================== *)
+(* pdf >= 0, vanishing exactly outside the open interval (-h, h); cdf non-decreasing, 0 left of
+   the support and 1 right of it; the exact polynomial pieces on the support (K' = k there, and
+   everywhere: C12_R_epanechnikov_kernel); total mass 1 *)
+Theorem C12_epan_kernel : forall h : Q, 0 < h ->
+  (forall x, 0 <= epan_pdf h x) /\
+  (forall x, epan_pdf h x == 0 <-> x <= - h \/ h <= x) /\
+  (forall a b, a <= b -> epan_cdf h a <= epan_cdf h b) /\
+  (forall x, (x <= - h -> epan_cdf h x == 0) /\ (h <= x -> epan_cdf h x == 1)) /\
+  (forall x, - h < x -> x < h ->
+     epan_pdf h x == (3 # 4) / h * (1 - x * x / (h * h)) /\
+     epan_cdf h x == (1 # 4) * (2 + 3 * (x / h) - (x / h) * (x / h) * (x / h))) /\
+  epan_cdf h h - epan_cdf h (- h) == 1.
+Proof. exact Proofs.KdeGroups.G_epan_kernel. Qed.
+Print Assumptions C12_epan_kernel.
+
+(* ====================================================================== *)
+(* A2. without boundaries: the weighted average of the kernel               *)
+(* ====================================================================== *)
+(* the closure y of KDE.PDF / KDE.CDF (Sample.Sum / Sample.Weight of the kernel values) is
+   the weighted average, for any kernel function g *)
+Theorem C12_closure_is_weighted_average :
+  forall (g : Q -> Q) (xs : list Q) (ws : option (list Q)) (x : Q),
+    ws_wf xs ws -> mix g xs ws x == wavg g (kpairs xs ws) x.
+Proof. exact mix_is_wavg. Qed.
+Print Assumptions C12_closure_is_weighted_average.
+
+Theorem C12_unbounded_is_average : forall k : kde, kde_ok k -> k_kernel k = KEpan ->
+  forall x : Q, k_b k = BNone ->
+  exists p c : Q, kde_pdf k x = Some (XFin p) /\ kde_cdf k x = Some (XFin c) /\
+                  p == kde_f k x /\ c == kde_F k x.
+Proof. exact kde_unbounded_is_average. Qed.
+Print Assumptions C12_unbounded_is_average.
+
+(* ====================================================================== *)
+(* A3. the laws of a distribution, every boundary setting                   *)
+(* ====================================================================== *)
+(* PDF >= 0, and = 0 outside [BoundaryMin, BoundaryMax) *)
+Theorem C12_pdf_laws : forall k : kde, kde_ok k -> k_kernel k = KEpan -> bounds_ok k ->
+  forall x p : Q, kde_pdf k x = Some (XFin p) ->
+    0 <= p /\ (below_min (k_b k) x = true \/ from_max (k_b k) x = true -> p == 0).
+Proof. exact Proofs.KdeGroups.G_pdf_laws. Qed.
+Print Assumptions C12_pdf_laws.
+
+(* CDF is non-decreasing on the whole line, has values in [0,1], is 0 below and AT BoundaryMin
+   and 1 from BoundaryMax on; on a side without boundary it is exactly 0 left of min(data) - h
+   and exactly 1 right of max(data) + h *)
+Theorem C12_cdf_laws : forall k : kde, kde_ok k -> k_kernel k = KEpan -> bounds_ok k ->
+  (forall a b ca cb : Q, a <= b ->
+     kde_cdf k a = Some (XFin ca) -> kde_cdf k b = Some (XFin cb) -> ca <= cb) /\
+  (forall x c : Q, kde_cdf k x = Some (XFin c) ->
+     (0 <= c /\ c <= 1) /\
+     (below_min (k_b k) x = true -> c == 0) /\
+     (from_max (k_b k) x = true -> below_min (k_b k) x = false -> c == 1) /\
+     (match k_b k with BLower m | BBoth m _ => x == m | _ => False end -> c == 0)) /\
+  (forall lo hi : Q, pairs_within lo hi (kde_ps k) ->
+     match k_b k with BNone => True | BLower m => m <= lo | BUpper M => hi <= M | _ => False end ->
+     (forall x c : Q, x <= lo - k_h k -> kde_cdf k x = Some (XFin c) -> c == 0) /\
+     (forall x c : Q, hi + k_h k <= x -> kde_cdf k x = Some (XFin c) -> c == 1)).
+Proof. exact Proofs.KdeGroups.G_cdf_laws. Qed.
+Print Assumptions C12_cdf_laws.
+
+(* one formula for all settings *)
+Theorem C12_model_is_spec : forall k : kde, kde_ok k -> k_kernel k = KEpan -> bounds_ok k ->
+  forall (x : Q) (N : nat), (k_fuel k <= N)%nat ->
+  exists p c : Q, kde_pdf k x = Some (XFin p) /\ kde_cdf k x = Some (XFin c) /\
+    p == pdf_spec (kde_f k) (k_b k) N x /\ c == cdf_spec (kde_F k) (k_b k) N x.
+Proof. exact kde_matches_spec. Qed.
+Print Assumptions C12_model_is_spec.
+
+(* ====================================================================== *)
+(* A4. one boundary: the density folded back at the boundary                *)
+(* ====================================================================== *)
+(* support [m, +inf): pdf = f(x) + f(2m - x), cdf = F(x) - F(2m - x), cdf(m) = 0 *)
+Theorem C12_lower_reflects : forall k : kde, kde_ok k -> k_kernel k = KEpan ->
+  forall m : Q, k_b k = BLower m ->
+  (forall x : Q,
+    (x < m -> kde_pdf k x = Some (XFin 0) /\ kde_cdf k x = Some (XFin 0)) /\
+    (m <= x -> exists p c : Q, kde_pdf k x = Some (XFin p) /\ kde_cdf k x = Some (XFin c) /\
+       p == kde_f k x + kde_f k (2 * m - x) /\ c == kde_F k x - kde_F k (2 * m - x))) /\
+  (exists c : Q, kde_cdf k m = Some (XFin c) /\ c == 0).
+Proof. exact Proofs.KdeGroups.G_lower. Qed.
+Print Assumptions C12_lower_reflects.
+
+(* support (-inf, M): pdf = f(x) + f(2M - x), cdf = F(x) + 1 - F(2M - x); the value 1 from M on
+   continues the inside formula *)
+Theorem C12_upper_reflects : forall k : kde, kde_ok k -> k_kernel k = KEpan ->
+  forall M : Q, k_b k = BUpper M ->
+  (forall x : Q,
+    (M <= x -> kde_pdf k x = Some (XFin 0) /\ kde_cdf k x = Some (XFin 1)) /\
+    (x < M -> exists p c : Q, kde_pdf k x = Some (XFin p) /\ kde_cdf k x = Some (XFin c) /\
+       p == kde_f k x + kde_f k (2 * M - x) /\ c == kde_F k x + (1 - kde_F k (2 * M - x)))) /\
+  kde_F k M + (1 - kde_F k (2 * M - M)) == 1.
+Proof. exact Proofs.KdeGroups.G_upper. Qed.
+Print Assumptions C12_upper_reflects.
+
+(* ====================================================================== *)
+(* A5. two boundaries: the image sums                                       *)
+(* ====================================================================== *)
+(* (1) `series` (alg.go) in exact arithmetic: if a zero term is followed only by zero terms and
+   one occurs before the fuel runs out, the result is the sum of all terms up to any later index;
+   (2) the model's image count reaches an index beyond which every image of a kernel of radius
+   r is out of reach; (3) for any density y with the support structure of a compact-kernel
+   average the two truncated series add up to the symmetric image sum of every order N >= K0 *)
+Theorem C12_fuel_argument :
+  (forall (t : nat -> Q) (fuel K : nat), absorbing t -> t K == 0 -> (K < fuel)%nat ->
+     exists s : Q, series_q t 0 fuel 0 = Some s /\ forall K' : nat, (K <= K')%nat -> s == nat_sum t K') /\
+  (forall r m M : Q, 0 <= r -> m < M ->
+     let K0 := (img_fuel r m M - 3)%nat in
+     (K0 < img_fuel r m M)%nat /\ r + img_d m M <= Qofnat K0 * img_d m M) /\
+  (forall (ps : list (Q * Q)) (h m M x : Q), 0 < h -> pairs_within m M ps -> m <= x /\ x <= M ->
+     forall y : Q -> Q, (forall z : Q, 0 <= y z) -> (forall s t : Q, s == t -> y s == y t) ->
+     (forall z : Q, y z == 0 <-> (forall p : Q * Q, In p ps -> z - fst p <= - h \/ h <= z - fst p)) ->
+     forall K0 : nat, h + img_d m M <= Qofnat K0 * img_d m M ->
+     forall fuel : nat, (K0 < fuel)%nat ->
+     exists v : Q, two_series fuel (pdf_upper y m M x) (pdf_lower y m M x) = Some v /\
+                   forall N : nat, (K0 <= N)%nat -> v == fold_pdf y m M N x).
+Proof. exact Proofs.KdeGroups.G_fuel_argument. Qed.
+Print Assumptions C12_fuel_argument.
+
+(* KDE.PDF / KDE.CDF on [BoundaryMin, BoundaryMax): the unbounded estimate folded back at both
+   boundaries,  pdf = sum_n f(x + n d) + f(2 min - x + n d)  (the statement the pinned tree
+   violated, D5),  cdf = sum_n F(x + n d) - F(2 min - x + n d),  for EVERY order N >= k_fuel *)
+Theorem C12_both_is_fold : forall k : kde, kde_ok k -> k_kernel k = KEpan ->
+  forall m M x : Q, k_b k = BBoth m M -> pairs_within m M (kde_ps k) ->
+  (x < m -> kde_pdf k x = Some (XFin 0) /\ kde_cdf k x = Some (XFin 0)) /\
+  (M <= x -> kde_pdf k x = Some (XFin 0) /\ kde_cdf k x = Some (XFin 1)) /\
+  (m <= x -> x < M ->
+     exists p c : Q, kde_pdf k x = Some (XFin p) /\ kde_cdf k x = Some (XFin c) /\
+       forall N : nat, (k_fuel k <= N)%nat ->
+         p == fold_pdf (kde_f k) m M N x /\ c == fold_cdf (kde_F k) m M N x).
+Proof. exact kde_both_is_fold. Qed.
+Print Assumptions C12_both_is_fold.
+
+(* the folded distribution function is 0 at BoundaryMin and telescopes at BoundaryMax, for any
+   F; for the estimate it is 1 there: total mass 1 on the support *)
+Theorem C12_fold_cdf_ends :
+  (forall (F : Q -> Q) (m M : Q) (N : nat), (forall s t : Q, s == t -> F s == F t) ->
+     fold_cdf F m M N m == 0 /\
+     fold_cdf F m M N M == F (M + Qofnat N * period m M) - F (M - (Qofnat N + 1) * period m M)) /\
+  (forall k : kde, kde_ok k -> k_kernel k = KEpan ->
+     forall (m M : Q) (N : nat), k_b k = BBoth m M -> pairs_within m M (kde_ps k) -> m < M ->
+     (k_fuel k <= N)%nat ->
+     fold_cdf (kde_F k) m M N m == 0 /\ fold_cdf (kde_F k) m M N M == 1).
+Proof. exact Proofs.KdeGroups.G_fold_cdf_ends. Qed.
+Print Assumptions C12_fold_cdf_ends.
+
+(* the pinned tree's second series (+w instead of -w) is not the fold *)
+Theorem C12_both_D5_refuted :
+  exists (k : kde) (m M x : Q) (N : nat) (p : Q),
+    kde_ok k /\ k_kernel k = KEpan /\ k_b k = BBoth m M /\ pairs_within m M (kde_ps k) /\
+    m <= x /\ x < M /\ (k_fuel k <= N)%nat /\
+    kde_pdf k x = Some (XFin p) /\ p == fold_pdf (kde_f k) m M N x /\
+    ~ p == fold_pdf_D5 (kde_f k) m M N x.
+Proof. exact kde_both_D5_refuted. Qed.
+Print Assumptions C12_both_D5_refuted.
+
+(* ====================================================================== *)
+(* A6. the delta kernel                                                     *)
+(* ====================================================================== *)
+(* CDF is the weighted empirical distribution function (no boundary; inside one or two
+   boundaries, with 0 at BoundaryMin / 1 from BoundaryMax); the "density" is +Inf exactly at the data points *)
+Theorem C12_delta_kernel : forall k : kde, kde_ok_delta k -> k_kernel k = KDelta ->
+  (k_b k = BNone -> forall x : Q,
+     (exists c : Q, kde_cdf k x = Some (XFin c) /\ c == wecdf (kde_ps k) x) /\
+     ((exists p : Q * Q, In p (kde_ps k) /\ fst p == x) -> kde_pdf k x = Some (XInf false)) /\
+     ((forall p : Q * Q, In p (kde_ps k) -> ~ fst p == x) -> kde_pdf k x = Some (XFin 0))) /\
+  (forall m lo hi x : Q, k_b k = BLower m -> pairs_within lo hi (kde_ps k) -> m <= lo ->
+     exists c : Q, kde_cdf k x = Some (XFin c) /\ (x <= m -> c == 0) /\ (m < x -> c == wecdf (kde_ps k) x)) /\
+  (forall M lo hi x : Q, k_b k = BUpper M -> pairs_within lo hi (kde_ps k) -> hi <= M ->
+     exists c : Q, kde_cdf k x = Some (XFin c) /\ (M <= x -> c == 1) /\ (x < M -> c == wecdf (kde_ps k) x)) /\
+  (forall m M x : Q, k_b k = BBoth m M -> pairs_within m M (kde_ps k) -> m < M -> m <= x /\ x < M ->
+     exists c : Q, kde_cdf k x = Some (XFin c) /\ (x == m -> c == 0) /\ (m < x -> c == wecdf (kde_ps k) x)).
+Proof. exact Proofs.KdeGroups.G_delta_kernel. Qed.
+Print Assumptions C12_delta_kernel.
+
+(* ====================================================================== *)
+(* A7. bandwidth rules, lazy bandwidth, Bounds                              *)
+(* ====================================================================== *)
+(* BandwidthSilverman = 1.06 s n^(-1/5) and BandwidthScott = 1.06 min(s, IQR/1.349) n^(-1/5), as
+   10th powers: rule10 s2 n = 1.06^10 (s^2)^5 / n^2 (C12_Q2R_bridge_and_rules: that IS the
+   10th power of the formula), with the textbook variance var_def; for a plain unweighted
+   sample the quartiles are the Hyndman-Fan type 8 quantiles of C10 and IQR >= 0 *)
+Theorem C12_bandwidth_rules :
+  (forall s : sample, s_ws s = None -> (2 <= length (s_xs s))%nat ->
+    (exists v : Q, bandwidth_silverman10 s = BwPow10 v /\
+                   v == rule10 (Stream.var_def (s_xs s)) (Qofnat (length (s_xs s)))) /\
+    (forall a b : Q, quantile s (3 # 4) = RVal a -> quantile s (1 # 4) = RVal b ->
+       exists v : Q, bandwidth_scott10 s = BwPow10 v /\
+         let r := (a - b) / (1349 # 1000) in
+         v == rule10 (Qminb (Stream.var_def (s_xs s)) (r * r)) (Qofnat (length (s_xs s))))) /\
+  (forall xs : list Q, (2 <= length xs)%nat ->
+    exists a b v : Q,
+      quantile (Proofs.Quantile.unsorted xs) (3 # 4) = RVal a /\
+      quantile (Proofs.Quantile.unsorted xs) (1 # 4) = RVal b /\
+      a == Spec.Quantile.hf_def third_f xs (3 # 4) /\ b == Spec.Quantile.hf_def third_f xs (1 # 4) /\
+      b <= a /\
+      bandwidth_scott10 (Proofs.Quantile.unsorted xs) = BwPow10 v /\
+      let r := (a - b) / (1349 # 1000) in
+      v == rule10 (Qminb (Stream.var_def xs) (r * r)) (Qofnat (length xs))).
+Proof. exact Proofs.KdeGroups.G_bandwidth_rules. Qed.
+Print Assumptions C12_bandwidth_rules.
+
+(* a zero Bandwidth selects Scott's rule, once; a non-zero one is never touched *)
+Theorem C12_bandwidth_lazy : forall before scott : Q,
+  (~ before == 0 -> bandwidth_after before scott = before) /\
+  (before == 0 -> bandwidth_after before scott = scott) /\
+  bandwidth_after (bandwidth_after before scott) scott = bandwidth_after before scott.
+Proof. exact bandwidth_lazy. Qed.
+Print Assumptions C12_bandwidth_lazy.
+
+(* what the Bounds checker accepts: a finite interval inside the boundaries with >= 98% mass;
+   the delta kernel's mass of [lo, hi] is the total weight of the data points in it *)
+Theorem C12_bounds_checker :
+  (forall (b : bconf) (lo hi : xreal) (mass : Q), kde_bounds_ok b lo hi mass = true ->
+     exists l h : Q, lo = XFin l /\ hi = XFin h /\ l <= h /\ (98 # 100) <= mass /\
+       match b with
+       | BNone => True
+       | BLower m => m <= l
+       | BUpper M => h <= M
+       | BBoth m M => m <= l /\ h <= M
+       | BBad => False
+       end) /\
+  (forall (xs : list Q) (ws : option (list Q)) (lo hi : Q), ws_wf xs ws ->
+     delta_mass_in xs ws lo hi ==
+     Qsum (map (fun p => if Qle_bool lo (fst p) && Qle_bool (fst p) hi then snd p else 0) (kpairs xs ws))
+     / wtotal (kpairs xs ws)).
+Proof. exact Proofs.KdeGroups.G_bounds_checker. Qed.
+Print Assumptions C12_bounds_checker.
+
+(* ====================================================================== *)
+(* A8. what a non-mismatch verdict of the correspondence check means        *)
+(* ====================================================================== *)
+(* for one observed point (x, PDF(x), CDF(x)): Epanechnikov kernel - both calls returned, the
+   Bandwidth field is as expected, PDF within 1e-9 * 0.75/h and CDF within 1e-9 of the exact
+   model (which is the distribution of C12_model_is_a_distribution); every kernel (Gaussian
+   included) - PDF >= 0 and 0 outside the boundaries, CDF in [0,1] with the exact end values,
+   CDF non-decreasing from the previous point, on the implementation's own outputs *)
+Theorem C12_ok_verdict_means : forall (k : kde) (hexp : xreal) (prev : option (Q * Q)) (p : Check.C12.pt)
+    (v cls : Z) (diag : list Z) (t : Z),
+  Check.C12.check_point k false hexp prev p = (v, cls, diag, t) -> v <> 2%Z ->
+  (k_kernel k = KEpan ->
+     Check.C12.p_pst p = 0%Z /\ Check.C12.p_cst p = 0%Z /\ xeq hexp (Check.C12.p_h p) = true /\
+     (forall e, kde_pdf k (Check.C12.p_x p) = Some e ->
+        xwithin (Check.C12.tol_pdf (k_h k)) e (Check.C12.p_pdf p) = true) /\
+     (forall e, kde_cdf k (Check.C12.p_x p) = Some e ->
+        xwithin Check.C12.tol_cdf e (Check.C12.p_cdf p) = true)) /\
+  (k_xs k <> [] ->
+     Check.C12.law_pdf (k_kernel k) (k_b k) (Check.C12.p_x p) (Check.C12.p_pdf p) = true /\
+     Check.C12.law_cdf (k_b k) (Check.C12.p_x p) (Check.C12.p_cdf p) = true /\
+     (forall x0 c0 c, prev = Some (x0, c0) -> Check.C12.p_cdf p = XFin c -> x0 <= Check.C12.p_x p ->
+        c0 <= c + Check.C12.slack)).
+Proof. exact Proofs.CheckC12.check_point_sound. Qed.
+Print Assumptions C12_ok_verdict_means.
+
+(* ====================================================================== *)
+(* B. over the reals (RealSpec/KdeR.v); grouped, one statement per topic    *)
+(* ====================================================================== *)
+Local Open Scope R_scope.
+
+(* the Epanechnikov distribution function is an antiderivative of the density EVERYWHERE
+   (including the junctions x = -h, h); density >= 0, distribution function monotone, mass 1 *)
+Theorem C12_R_epanechnikov_kernel : forall h : R, 0 < h ->
+  (forall x : R, is_derive (RealSpec.KdeR.epan_cdf h) x (RealSpec.KdeR.epan_pdf h x)) /\
+  (forall x : R, 0 <= RealSpec.KdeR.epan_pdf h x) /\
+  (forall a b : R, a <= b -> RealSpec.KdeR.epan_cdf h a <= RealSpec.KdeR.epan_cdf h b) /\
+  RInt (RealSpec.KdeR.epan_pdf h) (- h) h = 1.
+Proof. exact Proofs.KdeCap.R_epanechnikov_kernel. Qed.
+Print Assumptions C12_R_epanechnikov_kernel.
+
+(* ANY kernel pair K' = k >= 0 (k continuous), any sample with positive weights: CDF' = PDF,
+   PDF >= 0, CDF monotone, the integral of PDF over any interval is the CDF difference, and
+   CDF tends to 0 / 1 when K does *)
+Theorem C12_R_kernel_average : forall k K : R -> R, (forall x : R, is_derive K x (k x)) ->
+  (forall x : R, 0 <= k x) -> (forall x : R, continuous k x) ->
+  forall d : RealSpec.KdeR.sample, RealSpec.KdeR.sample_ok d ->
+  (forall x : R, is_derive (RealSpec.KdeR.kde_mix K d) x (RealSpec.KdeR.kde_mix k d x)) /\
+  (forall x : R, 0 <= RealSpec.KdeR.kde_mix k d x) /\
+  (forall a b : R, a <= b -> RealSpec.KdeR.kde_mix K d a <= RealSpec.KdeR.kde_mix K d b) /\
+  (forall a b : R, RInt (RealSpec.KdeR.kde_mix k d) a b = RealSpec.KdeR.kde_mix K d b - RealSpec.KdeR.kde_mix K d a) /\
+  (is_lim K m_infty 0 -> is_lim K p_infty 1 ->
+   is_lim (RealSpec.KdeR.kde_mix K d) m_infty 0 /\ is_lim (RealSpec.KdeR.kde_mix K d) p_infty 1).
+Proof. exact Proofs.KdeCap.R_kernel_average. Qed.
+Print Assumptions C12_R_kernel_average.
+
+(* reflection at one boundary keeps the derivative pair, for ANY pair F' = f (f continuous):
+   CDF(min) = 0, CDF(max) = 1, integral from / to the boundary = reflected CDF *)
+Theorem C12_R_reflection : forall f F : R -> R, (forall x : R, is_derive F x (f x)) ->
+  (forall x : R, continuous f x) ->
+  (forall m x : R, is_derive (RealSpec.KdeR.refl_low_cdf F m) x (RealSpec.KdeR.refl_low_pdf f m x)) /\
+  (forall M x : R, is_derive (RealSpec.KdeR.refl_high_cdf F M) x (RealSpec.KdeR.refl_high_pdf f M x)) /\
+  (forall m : R, RealSpec.KdeR.refl_low_cdf F m m = 0) /\
+  (forall M : R, RealSpec.KdeR.refl_high_cdf F M M = 1) /\
+  (forall m b : R, RInt (RealSpec.KdeR.refl_low_pdf f m) m b = RealSpec.KdeR.refl_low_cdf F m b) /\
+  (forall M a : R, RInt (RealSpec.KdeR.refl_high_pdf f M) a M = 1 - RealSpec.KdeR.refl_high_cdf F M a).
+Proof. exact Proofs.KdeCap.R_reflection. Qed.
+Print Assumptions C12_R_reflection.
+
+(* the image sums form a derivative pair for every order N, for ANY pair F' = f; the mass on
+   [m, M] telescopes: it is 1 exactly when the outermost images carry all / none of F *)
+Theorem C12_R_images : forall f F : R -> R, (forall x : R, is_derive F x (f x)) ->
+  (forall x : R, continuous f x) -> forall (m M : R) (N : nat),
+  (forall x : R, is_derive (RealSpec.KdeR.img_cdf F m M N) x (RealSpec.KdeR.img_pdf f m M N x)) /\
+  (forall a b : R, RInt (RealSpec.KdeR.img_pdf f m M N) a b =
+                   RealSpec.KdeR.img_cdf F m M N b - RealSpec.KdeR.img_cdf F m M N a) /\
+  RealSpec.KdeR.img_cdf F m M N m = 0 /\
+  RealSpec.KdeR.img_cdf F m M N M =
+    F (M + INR N * RealSpec.KdeR.img_period m M) - F (M - (INR N + 1) * RealSpec.KdeR.img_period m M).
+Proof. exact Proofs.KdeCap.R_images. Qed.
+Print Assumptions C12_R_images.
+
+(* the Gaussian kernel NormalDist{0,h} is a kernel pair with limits 0 / 1; the Gaussian
+   estimate is a proper pair with limits 0 / 1; half-bounded: total mass 1 (improper integral);
+   doubly bounded: with finitely many images the mass on [m, M] is strictly below 1 and tends
+   to 1 with the number of images (what the float `series` returns is a truncation whose order
+   depends on underflow: meta/C12.json "partial") *)
+Theorem C12_R_gaussian : forall h : R, 0 < h ->
+  ((forall x : R, is_derive (RealSpec.Normal.Phi 0 h) x (RealSpec.Normal.phi 0 h x)) /\
+   (forall x : R, 0 < RealSpec.Normal.phi 0 h x) /\
+   (forall x : R, continuous (RealSpec.Normal.phi 0 h) x) /\
+   (forall x : R, 0 < RealSpec.Normal.Phi 0 h x < 1) /\
+   is_lim (RealSpec.Normal.Phi 0 h) m_infty 0 /\ is_lim (RealSpec.Normal.Phi 0 h) p_infty 1) /\
+  forall d : RealSpec.KdeR.sample, RealSpec.KdeR.sample_ok d ->
+    Proofs.KdeQR.proper_pair (Proofs.KdeQR.gauss_kde_pdf h d) (Proofs.KdeQR.gauss_kde_cdf h d) /\
+    (is_lim (Proofs.KdeQR.gauss_kde_cdf h d) m_infty 0 /\ is_lim (Proofs.KdeQR.gauss_kde_cdf h d) p_infty 1) /\
+    (forall m : R, is_lim (fun b : R => RInt (RealSpec.KdeR.refl_low_pdf (Proofs.KdeQR.gauss_kde_pdf h d) m) m b) p_infty 1) /\
+    (forall M : R, is_lim (fun a : R => RInt (RealSpec.KdeR.refl_high_pdf (Proofs.KdeQR.gauss_kde_pdf h d) M) a M) m_infty 1) /\
+    (forall (m M : R) (N : nat), m < M ->
+       0 < RInt (RealSpec.KdeR.img_pdf (Proofs.KdeQR.gauss_kde_pdf h d) m M N) m M < 1) /\
+    (forall m M : R, m < M ->
+       is_lim_seq (fun N : nat => RInt (RealSpec.KdeR.img_pdf (Proofs.KdeQR.gauss_kde_pdf h d) m M N) m M) 1).
+Proof. exact Proofs.KdeCap.R_gaussian. Qed.
+Print Assumptions C12_R_gaussian.
+
+(* ====================================================================== *)
+(* C. bridge: the model's values are the values of a real distribution      *)
+(* ====================================================================== *)
+(* the rational definitions (model kernels, Spec/Kde.v) are the real ones at rational points;
+   the 10th-power form of the bandwidth rules is the stated formula 1.06 s n^(-1/5), and the
+   minimum of two non-negative deviations is decided by their squares *)
+Theorem C12_Q2R_bridge_and_rules :
+  ((forall h x : Q, (0 < h)%Q -> Q2R (epan_pdf h x) = RealSpec.KdeR.epan_pdf (Q2R h) (Q2R x)) /\
+   (forall h x : Q, (0 < h)%Q -> Q2R (epan_cdf h x) = RealSpec.KdeR.epan_cdf (Q2R h) (Q2R x)) /\
+   (forall (g : Q -> Q) (gR : R -> R) (ps : list (Q * Q)) (x : Q),
+      (forall q : Q, Q2R (g q) = gR (Q2R q)) -> pairs_ok ps ->
+      Q2R (wavg g ps x) = RealSpec.KdeR.kde_mix gR (Proofs.KdeQR.sampleR ps) (Q2R x)) /\
+   (forall (f : Q -> Q) (fR : R -> R) (m M : Q) (N : nat) (x : Q),
+      (forall q : Q, Q2R (f q) = fR (Q2R q)) ->
+      Q2R (fold_pdf f m M N x) = RealSpec.KdeR.img_pdf fR (Q2R m) (Q2R M) N (Q2R x)) /\
+   (forall (F : Q -> Q) (FR : R -> R) (m M : Q) (N : nat) (x : Q),
+      (forall q : Q, Q2R (F q) = FR (Q2R q)) ->
+      Q2R (fold_cdf F m M N x) = RealSpec.KdeR.img_cdf FR (Q2R m) (Q2R M) N (Q2R x))) /\
+  ((forall (s : R) (s2 n : Q), (0 < n)%Q -> Q2R s2 = s * s ->
+      Q2R (bw10 s2 n) = (106 / 100 * s * Rpower (Q2R n) (- (1 / 5))) ^ 10) /\
+   (forall a b : R, 0 <= a -> 0 <= b -> Rmin a b * Rmin a b = Rmin (a * a) (b * b))).
+Proof. exact Proofs.KdeCap.Q2R_bridge_and_rules. Qed.
+Print Assumptions C12_Q2R_bridge_and_rules.
+
+(* CAPSTONE: in every boundary setting (none / lower / upper / both) there is a pair (fR, FR)
+   of real functions with FR' = fR >= 0 continuous, FR non-decreasing, RInt fR a b = FR b - FR a
+   for all a b (Proofs.KdeQR.proper_pair), total mass 1 on the support, FR = 0 at BoundaryMin /
+   = 1 at BoundaryMax, whose values at every rational x are what KDE.PDF / KDE.CDF compute *)
+Theorem C12_model_is_a_distribution : forall k : kde, kde_ok k -> k_kernel k = KEpan ->
+  (k_b k = BNone ->
+   exists fR FR : R -> R,
+     Proofs.KdeQR.proper_pair fR FR /\ (forall x : R, 0 <= FR x <= 1) /\
+     (forall lo hi : Q, pairs_within lo hi (kde_ps k) ->
+        (forall x : R, x <= Q2R lo - Q2R (k_h k) -> FR x = 0) /\
+        (forall x : R, Q2R hi + Q2R (k_h k) <= x -> FR x = 1) /\
+        RInt fR (Q2R lo - Q2R (k_h k)) (Q2R hi + Q2R (k_h k)) = 1) /\
+     forall x : Q, exists p c : Q,
+       kde_pdf k x = Some (XFin p) /\ kde_cdf k x = Some (XFin c) /\
+       Q2R p = fR (Q2R x) /\ Q2R c = FR (Q2R x)) /\
+  (forall m : Q, k_b k = BLower m ->
+   exists fR FR : R -> R,
+     Proofs.KdeQR.proper_pair fR FR /\ FR (Q2R m) = 0 /\
+     (forall lo hi : Q, pairs_within lo hi (kde_ps k) -> (m <= lo)%Q ->
+        (forall x : R, Q2R hi + Q2R (k_h k) <= x -> FR x = 1) /\
+        RInt fR (Q2R m) (Q2R hi + Q2R (k_h k)) = 1) /\
+     forall x : Q,
+       ((x < m)%Q -> kde_pdf k x = Some (XFin 0%Q) /\ kde_cdf k x = Some (XFin 0%Q)) /\
+       ((m <= x)%Q -> exists p c : Q,
+          kde_pdf k x = Some (XFin p) /\ kde_cdf k x = Some (XFin c) /\
+          Q2R p = fR (Q2R x) /\ Q2R c = FR (Q2R x))) /\
+  (forall M : Q, k_b k = BUpper M ->
+   exists fR FR : R -> R,
+     Proofs.KdeQR.proper_pair fR FR /\ FR (Q2R M) = 1 /\
+     (forall lo hi : Q, pairs_within lo hi (kde_ps k) -> (hi <= M)%Q ->
+        (forall x : R, x <= Q2R lo - Q2R (k_h k) -> FR x = 0) /\
+        RInt fR (Q2R lo - Q2R (k_h k)) (Q2R M) = 1) /\
+     forall x : Q,
+       ((M <= x)%Q -> kde_pdf k x = Some (XFin 0%Q) /\ kde_cdf k x = Some (XFin 1%Q)) /\
+       ((x < M)%Q -> exists p c : Q,
+          kde_pdf k x = Some (XFin p) /\ kde_cdf k x = Some (XFin c) /\
+          Q2R p = fR (Q2R x) /\ Q2R c = FR (Q2R x))) /\
+  (forall m M : Q, k_b k = BBoth m M -> pairs_within m M (kde_ps k) -> (m < M)%Q ->
+   exists fR FR : R -> R,
+     Proofs.KdeQR.proper_pair fR FR /\ FR (Q2R m) = 0 /\ FR (Q2R M) = 1 /\
+     (forall x : R, Q2R m <= x <= Q2R M -> 0 <= FR x <= 1) /\
+     RInt fR (Q2R m) (Q2R M) = 1 /\
+     forall x : Q,
+       ((x < m)%Q -> kde_pdf k x = Some (XFin 0%Q) /\ kde_cdf k x = Some (XFin 0%Q)) /\
+       ((M <= x)%Q -> kde_pdf k x = Some (XFin 0%Q) /\ kde_cdf k x = Some (XFin 1%Q)) /\
+       ((m <= x)%Q -> (x < M)%Q -> exists p c : Q,
+          kde_pdf k x = Some (XFin p) /\ kde_cdf k x = Some (XFin c) /\
+          Q2R p = fR (Q2R x) /\ Q2R c = FR (Q2R x))).
+Proof. exact Proofs.KdeCap.model_is_a_distribution. Qed.
+Print Assumptions C12_model_is_a_distribution.
+
+Local Close Scope R_scope.
+
+(* ====================================================================== *)
+(* Examples: the hypotheses are satisfiable, the model computes              *)
+(* ====================================================================== *)
+(* ex_k b (Proofs/KdeGroups.v): sample {1,2,3}, weights {1,2,1}, h = 1, boundary setting b *)
+Example C12_ex_hyps :
+  kde_ok (ex_k BNone) /\ bounds_ok (ex_k (BLower (1 # 2))) /\ bounds_ok (ex_k (BUpper 4)) /\
+  bounds_ok (ex_k (BBoth (1 # 2) 4)) /\ pairs_within 1 3 (kde_ps (ex_k BNone)) /\
+  kde_ok_delta (mkKde [1; 2; 3] None KDelta 0 BNone).
+Proof.
+  repeat split; try (cbn; lra); try discriminate; try (repeat constructor; cbn; lra).
+Qed.
+(* values: unbounded pdf(2) = (1*0 + 2*(3/4) + 1*0)/4 = 3/8, cdf(2) = 1/2; doubly bounded on
+   [1/2, 4) at x = 3: the image 2*4 - 3 = 5 is out of reach, pdf = 3/16; cdf(1/2) = 0 *)
+Example C12_ex_values :
+  kde_pdf (ex_k BNone) 2 = Some (XFin (3 # 8)) /\ kde_cdf (ex_k BNone) 2 = Some (XFin (1 # 2)) /\
+  kde_pdf (ex_k (BBoth (1 # 2) 4)) 3 = Some (XFin (3 # 16)) /\
+  kde_cdf (ex_k (BBoth (1 # 2) 4)) (1 # 2) = Some (XFin 0) /\
+  kde_cdf (ex_k (BBoth (1 # 2) 4)) 4 = Some (XFin 1) /\
+  kde_pdf (ex_k (BLower (1 # 2))) (1 # 4) = Some (XFin 0) /\
+  kde_cdf (mkKde [1; 2; 3] (Some [1; 2; 1]) KDelta 0 BNone) 2 = Some (XFin (3 # 4)) /\
+  kde_pdf (mkKde [1; 2; 3] None KDelta 0 BNone) 2 = Some (XInf false).
+Proof. vm_compute. repeat split; reflexivity. Qed.
+(* a non-trivial image sum: h = 8 on [1/2, 4): images of three orders contribute; the model's
+   value is the fold of order k_fuel and of order k_fuel + 3 *)
+Example C12_ex_images :
+  let k := mkKde [1; 2; 3] None KEpan 8 (BBoth (1 # 2) 4) in
+  exists p, kde_pdf k 1 = Some (XFin p) /\ Qeq_bool p (fold_pdf (kde_f k) (1 # 2) 4 (k_fuel k) 1) = true /\
+            Qeq_bool p (fold_pdf (kde_f k) (1 # 2) 4 (k_fuel k + 3) 1) = true /\
+            Qeq_bool (pdf_upper (kde_f k) (1 # 2) 4 1 1) 0 = false.
+Proof. cbv zeta. eexists. split; [vm_compute; reflexivity|]. vm_compute. repeat split; reflexivity. Qed.
+(* Scott's rule hypotheses: see Proofs/KdeBw.v scott_rule_example *)
+Example C12_ex_scott :
+  let s := mkSample [1; 2; 4; 8; 16] None false in
+  exists a b, s_ws s = None /\ (2 <= length (s_xs s))%nat /\
+              quantile s (3 # 4) = RVal a /\ quantile s (1 # 4) = RVal b.
+Proof. exact scott_rule_example. Qed.
+Example C12_ex_bounds : kde_bounds_ok (BBoth 0 10) (XFin 1) (XFin 9) (99 # 100) = true /\
+                        kde_bounds_ok (BBoth 0 10) (XFin (-1)) (XFin 9) (99 # 100) = false /\
+                        kde_bounds_ok BNone (XFin 1) (XFin 9) (97 # 100) = false.
+Proof. vm_compute. repeat split; reflexivity. Qed.
